@@ -194,14 +194,12 @@ Qed.
 Lemma visible_length_le : forall g, (length (visible g) <= length (content g))%nat.
 Proof. intros g. rewrite visible_eq. apply filter_length_le'. Qed.
 
-Lemma sub_gen_consume : forall g g0, sub_gen g g0 -> (length (content g0) <= 400)%nat ->
+Lemma sub_gen_consume : forall g g0, sub_gen g g0 ->
   sub_gen (fold_left step_gen (mg_drain g) g) g0.
 Proof.
-  intros g g0 (Hwf & H0 & Hin & Hlen) H400. unfold mg_drain.
-  destruct (drain_fold 400 g Hwf) as (Hwf' & Hc & _ & _ & Hnil).
-  assert (length (visible g) <= 400)%nat as Hv.
-  { eapply Nat.le_trans; [apply visible_length_le|]. eapply Nat.le_trans; [exact Hlen|exact H400]. }
-  specialize (Hnil Hv).
+  intros g g0 (Hwf & H0 & Hin & Hlen). unfold mg_drain.
+  destruct (drain_fold (drain_bound g) g Hwf) as (Hwf' & Hc & _ & _ & Hnil).
+  specialize (Hnil (visible_le_bound g Hwf)).
   split; [exact Hwf'|split; [apply (visible_nil_promo0 _ Hwf' Hnil)|split]].
   - intros m Hm. apply Hin. apply (Permutation_in m (Permutation_sym Hc)). apply in_or_app. right. exact Hm.
   - pose proof (Permutation_length Hc) as Hl. rewrite app_length in Hl. lia.
@@ -213,8 +211,11 @@ Proof.
   pose proof (drain_sound g m Hwf Hm) as Hv. rewrite visible_eq in Hv. apply filter_In in Hv. apply Hv.
 Qed.
 
-(* the hypothesis under which the 400-step drain of board.legals() is complete (as in drain_complete) *)
-Definition small_root (root : board) : Prop := (length (content (legals_gen root)) <= 400)%nat.
+(* historical side condition (the drain fuel used to be a constant); it now holds of every board:
+   the drain fuel MoveGen.drain_bound always suffices (IterFacts.visible_le_bound), see small_root_all *)
+Definition small_root (root : board) : Prop := wf (legals_gen root).
+Lemma small_root_all : forall root, small_root root.
+Proof. intros root. apply legals_gen_wf. Qed.
 
 Lemma legals_gen_promo0 : forall b, g_promo (legals_gen b) = 0.
 Proof. reflexivity. Qed.
@@ -226,7 +227,6 @@ Proof.
   intros root Hs. unfold legals.
   rewrite <- (visible_full (legals_gen root) (legals_gen_mask root) (legals_gen_promo0 root)).
   apply (drain_complete _ (legals_gen_wf root)).
-  rewrite (visible_full (legals_gen root) (legals_gen_mask root) (legals_gen_promo0 root)). exact Hs.
 Qed.
 
 Lemma content_in_legals : forall root m, small_root root -> In m (content (legals_gen root)) -> In m (legals root).
@@ -252,7 +252,7 @@ Proof. intros root prev. unfold cap_gen. apply sub_gen_set_mask, root_gen1_sub. 
 Lemma quiet_gen_sub : forall root prev, small_root root -> sub_gen (quiet_gen root prev) (legals_gen root).
 Proof.
   intros root prev Hs. unfold quiet_gen, after_caps. apply sub_gen_set_mask.
-  apply sub_gen_consume; [apply cap_gen_sub|exact Hs].
+  apply sub_gen_consume; apply cap_gen_sub.
 Qed.
 
 Lemma cap_moves_legal : forall root prev m, small_root root -> In m (cap_moves root prev) -> In m (legals root).
@@ -337,14 +337,14 @@ Qed.
 
 Lemma legals_nil_content : forall root, legals root = [] -> content (legals_gen root) = [].
 Proof.
-  intros root H. unfold legals, mg_drain in H. rewrite mg_drain_fuel_S in H.
+  intros root H. unfold legals, mg_drain in H. rewrite drain_bound_eq, mg_drain_fuel_S in H.
   destruct (mg_next (legals_gen root)) as [[m|] g1] eqn:Hnext; [discriminate|].
   destruct (next_none_state _ _ (legals_gen_wf root) Hnext) as (Hv & _).
   rewrite (visible_full (legals_gen root) (legals_gen_mask root) (legals_gen_promo0 root)) in Hv. exact Hv.
 Qed.
 
 Lemma legals_nil_small : forall root, legals root = [] -> small_root root.
-Proof. intros root H. unfold small_root. rewrite (legals_nil_content root H). cbn [length]. lia. Qed.
+Proof. intros root _. apply small_root_all. Qed.
 
 Theorem search_none_gen : forall k tf passes fuel root, legals root = [] ->
   fst (fst (fst (search k tf passes fuel root))) = None.
@@ -371,18 +371,15 @@ Proof.
   destruct (set_mask_spec (root_gen1 root prev) (colors root (opp (b_turn root))) Hwf1 H01) as (Hc2 & _).
   destruct (cap_gen_sub root prev) as (Hwf2 & H02 & _ & Hlen2).
   destruct (quiet_gen_sub root prev Hs) as (Hwfq & H0q & _ & Hlenq).
-  destruct (drain_fold 400 (cap_gen root prev) Hwf2) as (Hwf3 & Hc3 & _ & _ & Hnil3).
-  assert (length (visible (cap_gen root prev)) <= 400)%nat as Hv2.
-  { eapply Nat.le_trans; [apply visible_length_le|]. eapply Nat.le_trans; [exact Hlen2|exact Hs]. }
-  specialize (Hnil3 Hv2).
+  destruct (drain_fold (drain_bound (cap_gen root prev)) (cap_gen root prev) Hwf2) as (Hwf3 & Hc3 & _ & _ & Hnil3).
+  specialize (Hnil3 (visible_le_bound _ Hwf2)).
   pose proof (visible_nil_promo0 _ Hwf3 Hnil3) as H03.
   fold (mg_drain (cap_gen root prev)) in Hwf3, Hc3, H03.
   fold (after_caps root prev) in Hwf3, Hc3, H03.
   destruct (set_mask_spec (after_caps root prev) bb_full Hwf3 H03) as (Hcq & Hmq & _ & _).
   fold (quiet_gen root prev) in Hcq, Hmq.
   assert (Permutation (quiet_moves root prev) (content (quiet_gen root prev))) as Hq.
-  { rewrite <- (visible_full (quiet_gen root prev) Hmq H0q). apply (drain_complete _ Hwfq).
-    eapply Nat.le_trans; [apply visible_length_le|]. eapply Nat.le_trans; [exact Hlenq|exact Hs]. }
+  { rewrite <- (visible_full (quiet_gen root prev) Hmq H0q). apply (drain_complete _ Hwfq). }
   eapply Permutation_trans; [|exact Hc2].
   eapply Permutation_trans; [|apply Permutation_sym, Hc3].
   apply Permutation_app_head. eapply Permutation_trans; [exact Hq|exact Hcq].
@@ -616,7 +613,7 @@ Proof. intros b. destruct (eval_raw b) as [z ->]. exact I. Qed.
 
 Lemma drain_nonempty : forall g, wf g -> mg_is_empty g = false -> mg_drain g <> [].
 Proof.
-  intros g Hwf He Hnil. unfold mg_drain in Hnil. rewrite mg_drain_fuel_S in Hnil.
+  intros g Hwf He Hnil. unfold mg_drain in Hnil. rewrite drain_bound_eq, mg_drain_fuel_S in Hnil.
   destruct (mg_next g) as [[m|] g1] eqn:Hnext; [discriminate|].
   destruct (next_none_state g g1 Hwf Hnext) as (Hv & _).
   apply (is_empty_exact g Hwf) in Hv. rewrite Hv in He. discriminate.
@@ -1110,9 +1107,8 @@ Qed.
 (* ------------------------------------------------------------------ *)
 (** * Full statements of which only the [small_root] restriction is proved above *)
 
-(* [small_root root]: board.legals() on the root owes at most 400 moves, i.e. the model's 400-step drain
-   is complete (true of every chess position: at most 218 legal moves; not provable for arbitrary
-   bitboard records).  Without it the promotion cursor may be mid-group when set_mask is called (K2). *)
+(* [small_root] holds of every board (small_root_all): the statements below are theorems
+   (pass_best_legal_all, search_move_legal_all, search_some_all, search_finds_mate1_all). *)
 Definition pass_best_legal_statement : Prop :=
   forall k tf fuel root depth prev st sc m st',
     prev_legal root prev -> pass k tf fuel root depth prev st = PassDone sc (Some m) st' -> In m (legals root).
@@ -1128,6 +1124,19 @@ Definition alphabeta_fuel_statement (Inv : board -> Prop) : Prop :=
   forall k tf fuel c old mv remaining current alpha beta bl st,
     Inv old -> In mv (content (legals_gen old)) -> (N.to_nat remaining + men old < fuel)%nat ->
     alphabeta k tf fuel c old mv remaining current alpha beta bl st <> AFuel.
+
+Theorem pass_best_legal_all : pass_best_legal_statement.
+Proof. intros k tf fuel root depth prev st sc m st'. apply pass_best_legal, small_root_all. Qed.
+Theorem search_move_legal_all : search_move_legal_statement.
+Proof. intros k tf passes fuel root m sc d f. apply search_move_legal, small_root_all. Qed.
+Theorem search_some_all : search_some_statement.
+Proof. intros k tf passes fuel root sc best st'. apply search_some, small_root_all. Qed.
+Theorem search_finds_mate1_all : forall k tf passes fuel root sc best st' m,
+  In m (legals root) -> mates_now k tf root m ->
+  pass k tf (fuel + N.to_nat 0) root 0 None {| s_polls := 0; s_evals := 0 |} = PassDone sc best st' ->
+  exists m', search k tf (S passes) fuel root = (Some m', mate1 (b_turn root), 0, false) /\
+             mg_is_empty (legals_gen (apply root m')) = true /\ Board.in_check (apply root m') = true.
+Proof. intros k tf passes fuel root sc best st' m. apply search_finds_mate1, small_root_all. Qed.
 
 Print Assumptions root_phase_best_in.
 Print Assumptions pass_best_legal.
